@@ -28,13 +28,14 @@ NOTE_FORMS = {
     "single": [f"o P1 {MZ} moved body words"],
     "multi": [f"o P1 {MZ} moved body words", "  * first bullet", "    - nested bullet", "  continued text"],
     "plain": [f"- {MZ} moved plain note"],
+    "stamped": [f"o P2 240412 {MZ} moved stamped todo", "  * with a bullet"],
 }
 POSITIONS = ["first", "middle", "last", "only-in-block", "under-h1", "under-h2"]
 MENTIONS = ["none", "earlier-note", "later-note", "earlier-zid-link"]
 OWN_TAGS = ["none", "same-as-inherited", "extends-inherited"]
 DESTS = ["missing-no-template", "missing-template", "header-only", "header-blank", "block-nl", "block-no-nl",
          "block-two-blank", "block-then-section", "ends-with-section-header", "mentions-zid",
-         "ends-with-section-header-no-nl", "missing-template-ending-in-section"]
+         "ends-with-section-header-no-nl", "missing-template-ending-in-section", "same-page"]
 MARKERS = [None, "x", "~"]
 
 
@@ -98,6 +99,8 @@ def build_dest(kind):
         return f"# Dest page\n\n- 240201#D1 dest note one\n\n- 240202#D2 second block\n\n{H1R} Later +someday", {}
     if kind == "missing-template-ending-in-section":
         return None, {r"dest\.zo": "dest2.zot"}
+    if kind == "same-page":
+        return "<SAME>", {}
     if kind == "mentions-zid":
         return f"# Dest page\n\n- 240201#D1 dest note about {MZ} and more\n", {}
     raise H.HarnessError(kind)
@@ -136,6 +139,8 @@ def _run_case(ctx, case) -> F.Outcome:
     form, pos, mention, own, dkind, marker = case
     src_text, note_lines = build_source(form, pos, mention, own)
     dest_text, tmap = build_dest(dkind)
+    if dkind == "same-page":
+        return _run_same_page(ctx, case, src_text, note_lines)
     files = {"src.zo": src_text, "dest.zot": TEMPLATE, "dest2.zot": TEMPLATE2}
     # a page whose last item has no trailing newline is not a valid page, so it
     # cannot be indexed; `note move` only needs the file, which is put in place
@@ -246,6 +251,52 @@ def _run_case(ctx, case) -> F.Outcome:
     return out
 
 
+def _run_same_page(ctx, case, src_text, note_lines) -> F.Outcome:
+    """Destination = the source page itself: the note moves to the end of the page,
+    every other line stays, the set of notes is unchanged."""
+    form, pos, mention, own, dkind, marker = case
+    zd = Z.make_zdir({"src.zo": src_text}, "c10")
+    out = F.Outcome()
+    try:
+        H.freeze(DAY)
+        r = Z.db_create(zd, DAY)
+        if not Z.cli_ok(r):
+            raise H.HarnessError("c10 setup failed: " + r.err[-300:])
+        before, _ = _notes_by_zid(src_text)
+        mv = H.run_cli(zd, "note", "move", MZ, "src.zo", *([marker] if marker else []), day=DAY)
+        after_text = (zd / "src.zo").read_text()
+        problems = []
+        if not Z.cli_ok(mv):
+            problems.append(("move-failed", {"stderr": mv.err[-400:]}))
+        else:
+            sl = src_text.split("\n")
+            k = sl.index(note_lines[0])
+            minus = "\n".join(sl[:k] + sl[k + len(note_lines):])
+            p = _dest_line_algebra(minus, after_text, note_lines)
+            if p:
+                problems.append((p[0] + ":same-page", p[1]))
+            after, ra = _notes_by_zid(after_text)
+            if after is None:
+                problems.append(("page-no-longer-valid:same-page", {"text": after_text, "nsyntax": ra["nsyntax"]}))
+            elif sorted(after) != sorted(before):
+                problems.append(("set-of-notes-changed:same-page", {"expected": sorted(before), "observed": sorted(after)}))
+            else:
+                old, new = before[MZ], after[MZ]
+                if new["kind"] != (marker or old["kind"]):
+                    problems.append(("moved-note-has-wrong-kind", {"observed": new["kind"]}))
+                if not _strip_added(new["body"], old["body"]):
+                    problems.append(("moved-note-body-changed", {"before": old["body"], "after": new["body"]}))
+        out.obs = H.digest(after_text)
+        out.nontrivial = H.digest(case)
+        if problems:
+            out.ok = False
+            out.sig = problems[0][0]
+            out.detail = {"source": src_text, "marker": marker, "after": after_text, "problem": problems[0][1]}
+    finally:
+        Z.drop(zd)
+    return out
+
+
 def _sig(problems, case) -> str:
     form, pos, mention, own, dkind, marker = case
     first = problems[0][0]
@@ -322,8 +373,8 @@ def run(ctx: F.Ctx):
     rep = F.explore(ctx, cases, lambda c: _run_case(ctx, c), sample=_sample, day=DAY, twice_every=101)
     meta = {
         "rule": (
-            "moved note in 3 forms (single-line todo, multi-line todo with bullets and a "
-            "continuation, plain note) x 6 positions (first/middle/last of a block, alone in a "
+            "moved note in 4 forms (single-line todo, multi-line todo with bullets and a "
+            "continuation, plain note, a todo that carries a modify date) x 6 positions (first/middle/last of a block, alone in a "
             "block, under an H1 carrying a tag and a property, under H1>H2 carrying tags and an "
             "inline property whose value has a space) x ZID mentioned {nowhere, in an earlier note, "
             "in a later note, in an earlier [zid] link} x own tags {none, same as inherited, longer "
@@ -331,7 +382,7 @@ def run(ctx: F.Ctx):
             "destinations (missing without / with a matching template, header only, header + blank, "
             "block ending in newline / without newline / with two blank lines, block then section, "
             "last line a section header with and without trailing newline, a template whose rendering "
-            "ends in a section header, a note mentioning the ZID) x marker {none, x, ~}; quick "
+            "ends in a section header, a note mentioning the ZID, the source page itself) x marker {none, x, ~}; quick "
             "covers every value of every dimension in rotation, thorough the full product. Oracle: "
             "line algebra on both files, then recompilation of both pages (same set of notes, "
             "requested kind, body = old body + inserted metadata words, tags/properties superset)."
